@@ -1,4 +1,63 @@
+(* C15 -- Numeric representations always lie inside their declared spaces.
+   Only statements; every proof is `exact <lemma>`.
+   A space is (ts, cs): the sorted type indices / colour values the representation is built from
+   (declared types plus NoneGridObject [and Hidden for observations]; declared colours plus NONE).
+   `obj_upper k ts cs` is the upper-bound vector of the per-object categorical space (lower bounds 0),
+   `enc_obj k ts cs` the per-object conversion, for k = default | no-overlap | compact. *)
 From Coq Require Import ZArith List Bool.
 From GV.Model Require Import Repr.
-Theorem C15_placeholder : True.
-Proof. exact I. Qed.
+From GV.Lemmas Require Import GridL C15L.
+Import ListNotations.
+Open Scope Z_scope.
+
+(* every member object is encoded inside the per-object space, for each of the three representations *)
+Theorem C15_object_in_space : forall k ts cs o, space_ok ts cs -> member ts cs o ->
+  within (enc_obj k ts cs o) (obj_upper k ts cs).
+Proof. exact enc_obj_in_space. Qed.
+Theorem C15_object_shape : forall k ts cs, length (obj_upper k ts cs) = 3%nat /\ forall o, length (enc_obj k ts cs o) = 3%nat.
+Proof. exact obj_upper_shape. Qed.
+(* the grid array: same height and row lengths as the grid, every entry within bounds *)
+Theorem C15_grid_in_space : forall k ts cs g, space_ok ts cs -> Forall (member ts cs) (concat g) ->
+  Forall (Forall (fun v => within v (obj_upper k ts cs))) (grid_repr k ts cs g) /\
+  length (grid_repr k ts cs g) = length g /\ Forall2 (fun r r' => length r' = length r) g (grid_repr k ts cs g).
+Proof. exact grid_repr_in_space. Qed.
+(* the agent marker array: the grid's shape, entries in {0, 1} *)
+Theorem C15_agent_id_in_space : forall g p,
+  Forall (Forall (fun v => 0 <= v <= 1)) (agent_id_grid g p) /\
+  length (agent_id_grid g p) = hN g /\ Forall (fun r => length r = wN g) (agent_id_grid g p).
+Proof. exact agent_id_in_space. Qed.
+(* the agent array of a state: for shapes of at least 2x2 never raises; normalised coordinates in [-1, 1] (exact fractions,
+   positive denominators); one-hot heading *)
+Theorem C15_agent_in_space : forall g p o, wf_grid g -> in_grid g p = true -> 2 <= gheight g -> 2 <= gwidth g ->
+  exists yn yd xn xd oh, agent_repr g p o = Ok ((yn, yd), (xn, xd), oh) /\ 0 < yd /\ 0 < xd /\
+    - yd <= yn <= yd /\ - xd <= xn <= xd /\ length oh = 4%nat /\ Forall (fun v => 0 <= v <= 1) oh /\
+    nth (Z.to_nat (Orientation_value o)) oh 0 = 1.
+Proof. exact agent_repr_in_space. Qed.
+(* ... and a degenerate (one row or one column) state shape has no agent representation: ZeroDivisionError *)
+Theorem C15_degenerate_shape_raises : forall g p o, gheight g = 1 \/ gwidth g = 1 -> agent_repr g p o = Err ZeroDivisionError.
+Proof. exact agent_repr_raises. Qed.
+(* whole states and observations, key by key *)
+Theorem C15_state_in_space : forall k ts cs s, space_ok ts cs -> member_state ts cs s -> 2 <= gheight (sgrid s) -> 2 <= gwidth (sgrid s) ->
+  exists r, convert_state k ts cs s = Ok r /\
+    Forall (Forall (fun v => within v (obj_upper k ts cs))) (sr_grid r) /\
+    Forall (Forall (fun v => 0 <= v <= 1)) (sr_agent_id r) /\
+    within (sr_item r) (obj_upper k ts cs) /\
+    (let '(yy, xx, oh) := sr_agent r in 0 < snd yy /\ 0 < snd xx /\ - snd yy <= fst yy <= snd yy /\ - snd xx <= fst xx <= snd xx /\
+                                         Forall (fun v => 0 <= v <= 1) oh).
+Proof. exact convert_state_in_space. Qed.
+Theorem C15_observation_in_space : forall k ts cs o, space_ok ts cs -> member_state ts cs o ->
+  let r := convert_obs k ts cs o in
+  Forall (Forall (fun v => within v (obj_upper k ts cs))) (or_grid r) /\
+  Forall (Forall (fun v => 0 <= v <= 1)) (or_agent_id r) /\ within (or_item r) (obj_upper k ts cs).
+Proof. exact convert_obs_in_space. Qed.
+(* state spaces declaring a type that cannot be represented in state are refused *)
+Theorem C15_requires_representable : forall declared,
+  state_repr_allowed declared = true <-> forall t, In t declared -> representable t = true.
+Proof. exact repr_requires_representable. Qed.
+
+(* non-vacuity: a key-door space and one of its members *)
+Example C15_example :
+  let ts := [ty_NoneGridObject; ty_Floor; ty_Wall; ty_Door; ty_Key] in let cs := [0; 1; 3] in
+  space_ok ts cs /\ member ts cs (Door 2 3) /\ member ts cs (Key 1) /\
+  enc_obj RNoOverlap ts cs (Door 2 3) = [ty_Door; max_type ts + 3; max_type ts + max_state ts + 5].
+Proof. exact C15_example_holds. Qed.
